@@ -152,8 +152,15 @@ func (ssc *defaultStatefulSetControl) ListRevisions(set *apps.StatefulSet) ([]*k
 		return nil, err
 	}
 	res := []*kubeapps.ControllerRevision{}
+	seen := map[string]bool{}
 	for _, item := range append(revisions.Items, revisinsToUpgrade.Items...) {
 		local := item
+		// A revision that carries both the selector labels and the upgrade
+		// marker is returned by both queries; it is one revision.
+		if seen[local.Name] {
+			continue
+		}
+		seen[local.Name] = true
 		// Only orphans and revisions controlled by this set belong to its
 		// history; revisions of other owners may match the selector too.
 		if ref := metav1.GetControllerOfNoCopy(&local); ref != nil && ref.UID != set.GetUID() {
